@@ -1,4 +1,5 @@
 import ConcVerif.Proof.Latch
+import ConcVerif.Proof.LatchLive
 /-! # C10 — Latch opens exactly when the count is reached and never loses a wake-up
 
 All statements are over `Reachable start s`: every accepted event sequence of the model in
@@ -168,5 +169,83 @@ example : ∃ s, Reachable 1 s ∧ s.pc 1 = .wRet .wait ∧ s.counter ≤ 0 ∧ 
 waiter is still in the wait set although the counter is 0 -/
 example : ∃ s, Reachable 1 s ∧ s.counter = 0 ∧ s.waiters = [1] ∧ (s.pc 2).notifying = true :=
   ⟨_, ⟨witnessTrace.take 8, rfl⟩, by decide, by decide, by decide⟩
+
+/-! ## Liveness: once the latch is open, every waiter returns — for every scheduler
+
+The clause "once that many have taken place every current and future waiter returns" is proved in
+two halves that need no fairness assumption:
+* `C10_open_progress` (deadlock-freedom): in every reachable open state in which some thread is
+  still inside a call, some thread has an enabled non-`call` step;
+* `C10_open_terminates` (no livelock, Base/Live.lean): an execution that reaches an open state
+  and makes no further `call` from then on cannot be infinite — the summed rank of the threads
+  strictly decreases with every step, spurious wake-ups included.
+Hence every maximal execution with finitely many calls ends in a state where every thread has
+returned (`C10_stuck_all_returned`).  What is NOT covered: an execution with infinitely many calls
+by other threads under a scheduler or mutex that starves one particular waiter (that needs a
+fairness assumption on the mutex which C++ does not give). -/
+
+theorem call_only_idle {s : St} {t : Tid} {e : Ev} (hc : isCall e = true) (h : (step s t e).isSome = true) :
+    s.pc t = .idle := by
+  cases e <;> simp [isCall] at hc
+  rename_i k
+  cases hp : s.pc t <;> cases k <;> simp [step, hp] at h
+  all_goals rfl
+
+/-- deadlock-freedom once open: if some thread is inside a call, some thread can take a
+non-`call` step -/
+theorem C10_open_progress {start : Int} {s : St} (h : Reachable start s) (ho : s.counter ≤ 0)
+    {t : Tid} (ht : s.pc t ≠ .idle) : ∃ u e, isCall e = false ∧ (step s u e).isSome = true := by
+  have hi := inv_reachable h
+  have noncall : ∀ u e, s.pc u ≠ .idle → (step s u e).isSome = true → isCall e = false := by
+    intro u e hu he
+    cases hc : isCall e with
+    | false => rfl
+    | true => exact absurd (call_only_idle hc he) hu
+  cases hm : s.mtx with
+  | some hd =>
+    obtain ⟨e, he⟩ := C10_holder_enabled h hm
+    have hh := (hi.holder hd).2 hm
+    have hne : s.pc hd ≠ .idle := by intro hid; simp [hid, Pc.holds] at hh
+    exact ⟨hd, e, noncall hd e hne he, he⟩
+  | none =>
+    have hq : ∀ u, (s.pc u).notifying = false := by
+      intro u
+      cases hn : (s.pc u).notifying with
+      | false => rfl
+      | true => have := C10_notifier_holds h hn; simp [hm] at this
+    by_cases hw : (s.pc t).inWait = true
+    · obtain ⟨e, he⟩ := C10_open_enabled h ho hq hw (Or.inl hm)
+      exact ⟨t, e, noncall t e ht he, he⟩
+    · have ha : 0 < (s.pc t).arriveRem := by
+        cases hp : s.pc t <;> simp [hp, Pc.inWait, Pc.arriveRem] at hw ht ⊢
+      obtain ⟨e, he⟩ := C10_arrive_enabled h ha (Or.inl hm)
+      exact ⟨t, e, noncall t e ht he, he⟩
+
+/-- no livelock once open: an execution whose state at step `N` is reachable and open and which
+makes no `call` from `N` on (threads drawn from any finite list `ts`) cannot be infinite -/
+theorem C10_open_terminates {start : Int} (x : Live.Exec step) (N : Nat)
+    (hr : Reachable start (x.σ N)) (ho : (x.σ N).counter ≤ 0)
+    (ts : List Tid) (hnd : ts.Nodup) (hts : ∀ n, N ≤ n → x.who n ∈ ts)
+    (hnc : ∀ n, N ≤ n → isCall (x.ev n) = false) : False :=
+  Live.no_infinite_run ranked ts hnd x N ⟨inv_reachable hr, ho⟩ hts hnc
+
+/-- quantitative form: from a reachable open state, a trace with `c` calls has at most
+`(total rank) + 12·c` steps -/
+theorem C10_open_bounded_run {start : Int} {s s' : St} (hr : Reachable start s) (ho : s.counter ≤ 0)
+    (ts : List Tid) (hnd : ts.Nodup) {es : List (Tid × Ev)} (hts : ∀ y ∈ es, y.1 ∈ ts)
+    (hrun : runFrom step s es = some s') :
+    es.length + Live.total μ ts s' ≤ Live.total μ ts s + 12 * Live.calls isCall es :=
+  Live.bounded_run ranked ts hnd ⟨inv_reachable hr, ho⟩ hts hrun
+
+/-- a reachable open state in which no non-`call` step is enabled has every thread returned -/
+theorem C10_stuck_all_returned {start : Int} {s : St} (h : Reachable start s) (ho : s.counter ≤ 0)
+    (hstuck : ∀ u e, isCall e = false → (step s u e).isSome = false) (t : Tid) : s.pc t = .idle := by
+  apply Classical.byContradiction
+  intro ht
+  obtain ⟨u, e, hc, he⟩ := C10_open_progress h ho ht
+  simp [hstuck u e hc] at he
+
+/-- non-vacuity: after the witness trace thread 1 is in `wRet`; one more step and all have returned -/
+example : ∃ s, Reachable 1 s ∧ s.counter ≤ 0 ∧ s.pc 1 ≠ .idle := ⟨_, ⟨witnessTrace, rfl⟩, by decide, by decide⟩
 
 end ConcVerif.Latch
